@@ -69,3 +69,10 @@ check(
     "Trusts np.interp-based reference (vf/props/c08.ref_regrid) and the reference Hs; uniform full-circle target direction grids (so that a bin width exists for Hs).",
     "DESIGN.md section 5 C08",
 )
+check(
+    "C16",
+    "Hypothesis-generated spectra, grids (full-circle in any stored order, partial uniform) and odd windows compared with an explicit-loop box filter (local bounds everywhere, window mean where the window fits), plus identity, even-window rejection and commutation with circular shifts",
+    "Thousands (quick) / tens of thousands (thorough) of (dataset, window) cases incl. windows up to the grid size, unsorted stored directions, extra dims and float32; every clause of the statement is asserted per case. Exploration.",
+    "Trusts the explicit-loop reference filter in vf/props/c16.py; direction spacing restricted to exactly representable values as the property itself states.",
+    "DESIGN.md section 5 C16",
+)
